@@ -29,7 +29,9 @@
      * an expression in exprRoot position that starts with a parenthesis closed right before `!=`
        is cut after the parenthesis (`(1) != 1` returns 1): `paren_ne_flag` tells whether a printed
        text contains that shape (finding paren-lead-ne-truncated); the printer does not avoid it
-       because for `(x || y) != 3` the parentheses are needed. *)
+       because for `(x || y) != 3` the parentheses are needed;
+     * an index closed right before `==` (`x[0] == 1`) is cut before the index: the printer wraps the
+       left operand of `==` in parentheses when it ends with an index (finding index-eq-truncated). *)
 From Coq Require Import String Ascii NArith ZArith List Bool.
 From DS Require Import Model.Str.
 Import ListNotations.
@@ -177,6 +179,12 @@ Section Toks.
       | EUn o e1 => etoks e1 12 (TUn (match o with UNeg => "-" | UPos => "+" end) :: acc0)
       | EBin o l r =>
         let a1 := etoks l (bin_level o) acc0 in
+        (* `x[0] == 1`: an index closed right before `==` is not parsed (finding index-eq-truncated):
+           the printer wraps such a left operand *)
+        let a1 := match o, a1 with
+                  | BEq, TRBidx :: _ => etoks l 13 acc0
+                  | _, _ => a1
+                  end in
         etoks r (bin_right_level o) (TOp (bin_text o ((pick a1 mod 2 =? 0)%N)) :: a1)
       | EOr l r => etoks r 3 (TOp "||" :: etoks l 2 acc0)
       | ETern c a b => etoks b 2 (TColon :: etoks a 2 (TQ :: etoks c 2 acc0))
